@@ -55,6 +55,12 @@ pub enum Act {
     ReqOk { key: u64 },
     ReqErr { key: u64 },
     Insert { key: u64 },
+    /// the origin future of the running fetch itself inserts a newer value (`cache.insert`) right before it returns its
+    /// own, older result: the insert completes during the origin's final poll
+    ReqOkAfterInsert { key: u64 },
+    /// explicit insert of a value the cache's filter rejects (a disk-only / phantom record): nothing is stored in memory,
+    /// but waiters of a pending fetch must still receive it
+    InsertPhantom { key: u64 },
     Remove { key: u64 },
     /// drop the oldest still pending caller of the key
     DropCaller { key: u64 },
@@ -78,6 +84,8 @@ enum GateMsg {
     Hit(u64),
     Miss,
     Ok(u64),
+    /// insert the second value into the cache, then return the first one
+    InsertThenOk(u64, u64),
     Err(&'static str),
 }
 
@@ -217,6 +225,13 @@ impl Model {
             self.notify(&f.waiters, Outcome::Value(v));
         }
     }
+    fn insert_phantom(&mut self, key: u64, v: u64) {
+        // a filtered insert removes the in-memory copy and stores nothing; waiters still receive the value
+        self.present.remove(&key);
+        if let Some(f) = self.flights.remove(&key) {
+            self.notify(&f.waiters, Outcome::Value(v));
+        }
+    }
     fn remove(&mut self, key: u64) {
         self.present.remove(&key);
     }
@@ -270,6 +285,7 @@ pub fn run_script_div(algo: Algo, script: &[Act], div: u64) -> Run {
         .with_shards(1)
         .with_eviction_config(AlgoCfg::default_for(algo).eviction_config())
         .with_hash_builder(DivHasher { div })
+        .with_filter(|_: &u64, v: &Tv| !v.phantom)
         .build();
     let mut model = Model::default();
     let mut callers: Vec<Caller> = vec![];
@@ -338,6 +354,7 @@ pub fn run_script_div(algo: Algo, script: &[Act], div: u64) -> Run {
                     let (rx, started) = mk_gate(false, &mut gates);
                     let (inf, max) = origin_inflight[&key].clone();
                     let total = origin_started_total.clone();
+                    let cache2 = cache.clone();
                     Some(Box::new(move |_: &mut ()| {
                         total.fetch_add(1, Ordering::SeqCst);
                         let fut = Tracked { inner: rx, started, inflight: inf, max_inflight: max, counted: false };
@@ -347,6 +364,10 @@ pub fn run_script_div(algo: Algo, script: &[Act], div: u64) -> Run {
                                     value: Tv { key, id: v, w: 1, phantom: false },
                                     properties: CacheProperties::default(),
                                 }),
+                                Ok(GateMsg::InsertThenOk(old, new)) => {
+                                    drop(cache2.insert(key, Tv { key, id: new, w: 1, phantom: false }));
+                                    Ok(FetchTarget::Entry { value: Tv { key, id: old, w: 1, phantom: false }, properties: CacheProperties::default() })
+                                }
                                 Ok(GateMsg::Err(m)) => Err(Error::new(ErrorKind::External, m)),
                                 _ => Err(Error::new(ErrorKind::External, "gate dropped")),
                             }
@@ -415,6 +436,32 @@ pub fn run_script_div(algo: Algo, script: &[Act], div: u64) -> Run {
                         model.required_done(key, None);
                     }
                 }
+            }
+            Act::ReqOkAfterInsert { key } => {
+                if let Some(g) = gates.iter_mut().find(|g| {
+                    g.key == key && !g.optional && g.tx.is_some() && g.started.load(Ordering::SeqCst) == 1 && g.zombie_epoch == 0
+                }) {
+                    next_val += 2;
+                    let (old, new) = (next_val - 1, next_val);
+                    takeover = true;
+                    *epochs.entry(key).or_insert(0) += 1;
+                    let _ = g.tx.take().unwrap().send(GateMsg::InsertThenOk(old, new));
+                    // the insert takes the flight over: its waiters get the inserted value, the fetch's own result is dead
+                    model.insert(key, new);
+                }
+            }
+            Act::InsertPhantom { key } => {
+                next_val += 1;
+                if model.flights.contains_key(&key) {
+                    takeover = true;
+                    for g in gates.iter_mut().filter(|g| g.key == key && g.tx.is_some() && g.started.load(Ordering::SeqCst) == 1) {
+                        g.zombie_epoch = 1;
+                    }
+                }
+                *epochs.entry(key).or_insert(0) += 1;
+                let e = cache.insert(key, Tv { key, id: next_val, w: 1, phantom: true });
+                drop(e);
+                model.insert_phantom(key, next_val);
             }
             Act::Insert { key } => {
                 next_val += 1;
@@ -574,6 +621,8 @@ fn alphabet(c11: bool) -> Vec<Act> {
         Act::ReqOk { key },
         Act::ReqErr { key },
         Act::Insert { key },
+        Act::ReqOkAfterInsert { key },
+        Act::InsertPhantom { key },
         Act::Remove { key },
         Act::DropCaller { key },
     ];
@@ -654,7 +703,7 @@ pub fn run(prop: &str, seed: u64, tier: &str, shard: usize, nshards: usize) -> S
                 c /= n;
             }
             // scripts that start with a resolution or end with an arrival only add nothing new: keep them, they are cheap
-            if c11 && !script.iter().any(|a| matches!(a, Act::Insert { .. })) {
+            if c11 && !script.iter().any(|a| matches!(a, Act::Insert { .. } | Act::ReqOkAfterInsert { .. } | Act::InsertPhantom { .. })) {
                 continue;
             }
             // every 7th script additionally ends by cancelling the fetch runtime
@@ -682,13 +731,15 @@ pub fn run(prop: &str, seed: u64, tier: &str, shard: usize, nshards: usize) -> S
                     Act::ReqOk { .. } => Act::ReqOk { key },
                     Act::ReqErr { .. } => Act::ReqErr { key },
                     Act::Insert { .. } => Act::Insert { key },
+                    Act::ReqOkAfterInsert { .. } => Act::ReqOkAfterInsert { key },
+                    Act::InsertPhantom { .. } => Act::InsertPhantom { key },
                     Act::Remove { .. } => Act::Remove { key },
                     Act::DropCaller { .. } => Act::DropCaller { key },
                     a => a,
                 }
             })
             .collect();
-        if c11 && !script.iter().any(|a| matches!(a, Act::Insert { .. })) {
+        if c11 && !script.iter().any(|a| matches!(a, Act::Insert { .. } | Act::ReqOkAfterInsert { .. } | Act::InsertPhantom { .. })) {
             script.push(Act::Insert { key: 0 });
             script.push(Act::Arrive { key: 0, kind: Kind::MemFetch });
         }
